@@ -129,4 +129,18 @@ Proof.
   fold cb.
   apply (canon_complete asg base low N cb Hv Lv HN Hz Eh El RH0 RL ltac:(lia) Ed Rd Eb4 Ep Et Er Eg Rg).
 Qed.
+
+(* component_truncate::<N> on a canonical input v *)
+Theorem truncate_complete asg w N base v :
+  (1 <= N <= 254)%nat -> asg W_ZERO = 0 -> (0 <= v < r)%Z -> asg w = F v ->
+  let Lv := (v mod 2 ^ Z.of_nat N)%Z in
+  asg base = F Lv -> range_honest asg N (S base) Lv ->
+  block_sat (split_blk w base N (S base + range_nw N)) asg ->
+  block_sat (truncate_blk w N base) asg.
+Proof.
+  intros HN Hz Rv Hw Lv El Rl Hsplit. unfold truncate_blk.
+  assert (PN : (0 < 2 ^ Z.of_nat N)%Z) by (apply Z.pow_pos_nonneg; lia).
+  apply block_sat_app; [apply range_blk_closed|]. split; [|exact Hsplit].
+  apply (range_complete_h base N (S base) asg Lv); [apply Z.mod_pos_bound; lia|exact Hz|exact El|exact Rl].
+Qed.
 End TruncComplete.
